@@ -29,7 +29,6 @@ IsLeaf(n) == n.k \notin {"bin", "neg"}
 (* does child c need parentheses under a binary operator op on side s?     *)
 NeedParens(c, op, s) ==
   IF c.k # "bin" THEN FALSE                                  \* leaf or unary minus
-  ELSE IF c.op \in CmpOpsX THEN TRUE                          \* one comparison per parenthesis-free region
   ELSE IF (c.op = "&" /\ IsArith(op)) \/ (IsArith(c.op) /\ op = "&") THEN TRUE   \* & vs + - * / : not ranked
   ELSE IF Level(c.op) < Level(op) THEN TRUE
   ELSE IF Level(c.op) > Level(op) THEN FALSE
